@@ -237,3 +237,115 @@ def executor_paths(F, kind, unroll=2, max_paths=256):
             d["outcome"] = ("ok",)
         out.append(d)
     return fn, out
+
+
+# ---- skeleton interpretation of orchestrating methods ---------------------------------------------------------------------
+
+class Havoc(Opaque):
+    """an unknown value whose fields are unknown values too"""
+    def __init__(self, name):
+        Opaque.__init__(self, name)
+        self.field = lambda f: Havoc("%s.%s" % (name, f))
+        self.sym_at = lambda idx: Ptr([Havoc("%s[]" % name)], 0)
+
+
+def havoc_return(F, f, name):
+    """an unknown value of the callee's return type: Result -> Ok(unknown), tuple -> tuple of unknowns, bool -> a term"""
+    g = F.fns.get(getattr(f, "xid", None)) or F.fns.get(f.id)
+    ty = g.d["locals"][0] if g is not None and g.d.get("locals") else ""
+    return havoc_of_type(ty, name)
+
+
+def havoc_args(fn):
+    """unknown arguments of the types fn declares"""
+    return [havoc_of_type(fn.d["locals"][i], "arg%d" % i) for i in range(1, fn.d["argc"] + 1)]
+
+
+def havoc_of_type(ty, name):
+    def mk(ty, nm):
+        ty = ty.strip()
+        if re.match(r"^(std|core)::result::Result<", ty):
+            inner = ty[ty.index("<") + 1:]
+            return Agg([mk(split_top(inner)[0], nm)], "adt", "core::result::Result", "Ok")
+        if ty == "()":
+            return Agg([], "tuple")
+        if re.match(r"^(std|core)::option::Option<", ty):
+            inner = ty[ty.index("<") + 1:]
+            return Agg([mk(split_top(inner)[0], nm)], "adt", "core::option::Option", "Some")
+        if ty.startswith("&"):
+            return Ptr([mk(re.sub(r"^&(mut )?('\w+ )?", "", ty), nm)], 0)
+        if ty.startswith("(") and ty.endswith(")"):
+            return Agg([mk(t, "%s.%d" % (nm, i)) for i, t in enumerate(split_top(ty[1:-1]))], "tuple")
+        if ty == "bool":
+            return Term(nm)
+        if ty.endswith("Felt") or ty.endswith("BaseElement"):
+            return Poly.var(nm)
+        if re.match(r"^\[.*; 4\]$", ty) and ("Felt" in ty or "BaseElement" in ty):
+            return Agg([Poly.var("%s%d" % (nm, i)) for i in range(4)], "array")
+        if ty in ("usize", "u64", "u32", "u16", "u8"):
+            return Term(nm)
+        return Havoc(nm)
+    return mk(ty, name)
+
+
+def split_top(s):
+    out, depth, cur = [], 0, ""
+    for ch in s:
+        if ch in "<([":
+            depth += 1
+        elif ch in ">)]":
+            depth -= 1
+            if depth < 0:
+                break
+        if ch == "," and depth == 0:
+            out.append(cur)
+            cur = ""
+        else:
+            cur += ch
+    if cur.strip():
+        out.append(cur)
+    return [x.strip() for x in out]
+
+
+def skeleton_paths(F, fn, inline_pat, record_pat, args, max_paths=128, workspace=r"^(miden_|winter_)"):
+    """interpret fn; callees matching inline_pat are interpreted too, callees matching record_pat are recorded as events
+    (name, arguments) and return an unknown of their return type, every other workspace callee returns an unknown"""
+    inl, recp, ws = re.compile(inline_pat), re.compile(record_pat), re.compile(workspace)
+    holder = {}
+
+    def make():
+        I = Interp(F)
+        I.havoc = True
+        procmodel.install_field(I)
+        n = [0]
+
+        def generic(I_, a, f):
+            n[0] += 1
+            if recp.search(f.id):
+                I_.effects.append((f.id.rsplit("::", 1)[-1], tuple(a[1:])))
+            return havoc_return(F, f, "%s#%d" % (f.id.rsplit("::", 1)[-1], n[0]))
+
+        class Matcher:
+            def search(self, sid):
+                if inl.search(sid):
+                    return None
+                if recp.search(sid) or (ws.search(sid) and "{closure" not in sid and "@" not in sid.split("::")[-2:][0] and not sid.endswith("::{constructor#0}")):
+                    return True
+                return None
+        I.overrides.insert(0, (Matcher(), generic))
+        return I
+
+    def run(I):
+        return I.call(fn.id, args())
+
+    out = []
+    for I, res, exc in enumerate_paths(make, run, max_paths=max_paths):
+        d = {"events": list(I.effects), "guards": list(I.path)}
+        if exc is not None:
+            d["outcome"] = ("panic" if isinstance(exc, PanicReached) else "unanalysable", str(exc))
+        elif isinstance(res, Agg) and res.variant == "Err":
+            d["outcome"] = ("err",)
+        else:
+            d["outcome"] = ("ok",)
+        out.append(d)
+    return out
